@@ -214,3 +214,46 @@ theorem loadFile_clean (c : RCfg) (nl : Nat) (bs : List Block) (hw : ∀ b ∈ b
   simp [stopOk]
 
 end Hv.Storage
+
+namespace Hv.Storage
+
+/-! ### Crash images from a checkpoint (what the driver computes) -/
+
+theorem applyAll_append' (d : Disk) (a b : List FsOp) : d.applyAll (a ++ b) = (d.applyAll a).applyAll b := by
+  simp [Disk.applyAll, List.foldl_append]
+
+theorem imageAt_checkpoint (d0 : Disk) (ops : List FsOp) (b i k : Nat) (hb : b ≤ i) :
+    imageAt d0 ops i k = imageAt (d0.applyAll (ops.take b)) (ops.drop b) (i - b) k := by
+  have hget : (ops.drop b)[i - b]? = ops[i]? := by
+    rw [List.getElem?_drop]; congr 1; omega
+  have htake : ops.take i = ops.take b ++ (ops.drop b).take (i - b) := by
+    have : i = b + (i - b) := by omega
+    conv => lhs; rw [this]
+    exact List.take_add
+  have hall : ops = ops.take b ++ ops.drop b := (List.take_append_drop b ops).symm
+  simp only [imageAt, hget]
+  cases ops[i]? with
+  | some op => simp only; rw [htake, applyAll_append']
+  | none => simp only; conv => lhs; rw [hall]
+            rw [applyAll_append']
+
+/-- The image at a crash point past a checkpoint `b` equals the image of the remaining
+    operations on the checkpointed disk: the driver memoises `d0.applyAll (ops.take b)`. -/
+theorem lossyImageAt_checkpoint (d0 : Disk) (ops : List FsOp) (b i j k : Nat) (hbi : b ≤ i) (hbj : b ≤ j) :
+    lossyImageAt d0 ops i j k =
+      lossyImageAt (d0.applyAll (ops.take b)) (ops.drop b) (i - b) (j - b) k := by
+  unfold lossyImageAt
+  by_cases hij : i ≤ j
+  · have : i - b ≤ j - b := by omega
+    simp only [hij, this, if_true]
+    exact imageAt_checkpoint d0 ops b i k hbi
+  · have : ¬ (i - b ≤ j - b) := by omega
+    simp only [hij, this, if_false]
+    rw [imageAt_checkpoint d0 ops b j k hbj]
+    congr 2
+    have e1 : ((ops.drop b).take (i - b)) = (ops.take i).drop b := by
+      rw [List.drop_take]
+    rw [e1, List.drop_drop]
+    congr 1; omega
+
+end Hv.Storage
